@@ -5,6 +5,15 @@ MGF1/KDF2, RFC 9380 expand_message_xmd), Spec/Aes.lean (FIPS 197, SP 800-38A CBC
 Code-shaped models: Model/Sha256.lean, Model/Md.lean, Model/Bc.lean.
 -/
 import RelicVerif.Lemmas.Md
+import RelicVerif.Lemmas.ShaStream
+import RelicVerif.Lemmas.Blake2s
+import RelicVerif.Lemmas.Aes
+import RelicVerif.Lemmas.AesTables
+import RelicVerif.Gen.MdConsts
+import RelicVerif.Lemmas.RijndaelEnc
+import RelicVerif.Lemmas.RijndaelDec
+import RelicVerif.Lemmas.RijndaelKey
+import RelicVerif.Lemmas.AesCbc
 
 namespace Relic.Props.C14
 open Relic.Spec Relic.Model Relic.Lemmas.Md
@@ -13,6 +22,69 @@ open Relic.Spec.Mac (Bytes Hash)
 /-- streaming SHA-256 = FIPS 180-4 for every message length and every chunking -/
 theorem sha256_streaming_conforms (chunks : List Bytes) (hlen : 8 * chunks.flatten.length < 2 ^ 64) :
     Sha256.mdMapChunks chunks = some (Spec.Sha256.sha256 chunks.flatten) := sha256_streaming chunks hlen
+
+/-- the RFC 6234 streaming code (one model for sha224-256.c and sha384-512.c: block buffer, Message_Block_Index,
+    length counter with overflow test, the two padding cases) = the Merkle–Damgård construction of FIPS 180-4
+    over the concatenation of the chunks, for every parameter set with room for the length field, every
+    chunking and every length for which the AddLength test of the implementation stays silent (`Safe`: below 2^64 bits
+    for sha224-256.c; below 2^96 bits for sha384-512.c as compiled, whose test `Length[3] == 0 && Length[2] == 0 &&
+    Length[1] == 0 && Length[0] < 8` also fires at multiples of 2^96 bits) -/
+theorem sha_streaming_generic {W : Type} (P : ShaStream.Params W) (hlb : P.lenBytes + 1 ≤ P.blockSize)
+    (chunks : List Bytes) (hlen : Relic.Lemmas.ShaStream.Safe P chunks.flatten.length) :
+    ShaStream.run P chunks =
+      some ((P.digest (Spec.MD.hash P.blockSize P.lenBytes P.compress P.h0 chunks.flatten)).take P.hashSize) :=
+  Relic.Lemmas.ShaStream.run_eq P hlb chunks hlen
+
+/-- streaming SHA-224 (SHA224Reset / SHA224Input* / SHA224Result) = FIPS 180-4 for every chunking -/
+theorem sha224_streaming_conforms (chunks : List Bytes) (hlen : 8 * chunks.flatten.length < 2 ^ 64) :
+    ShaStream.run ShaStream.sha224P chunks = some (Spec.Sha256.sha224 chunks.flatten) :=
+  Relic.Lemmas.ShaStream.sha224_streaming chunks hlen
+
+/-- streaming SHA-384 (128-byte blocks, 128-bit length) = FIPS 180-4 for every chunking; the bound is the first length
+    at which the implementation's own counter test fires (2^96 bits, see `sha512_refuses_at_2_96`) -/
+theorem sha384_streaming_conforms (chunks : List Bytes) (hlen : 8 * chunks.flatten.length < 2 ^ 96) :
+    ShaStream.run ShaStream.sha384P chunks = some (Spec.Sha512.sha384 chunks.flatten) :=
+  Relic.Lemmas.ShaStream.sha384_streaming chunks hlen
+
+/-- streaming SHA-512 = FIPS 180-4 for every chunking -/
+theorem sha512_streaming_conforms (chunks : List Bytes) (hlen : 8 * chunks.flatten.length < 2 ^ 96) :
+    ShaStream.run ShaStream.sha512P chunks = some (Spec.Sha512.sha512 chunks.flatten) :=
+  Relic.Lemmas.ShaStream.sha512_streaming chunks hlen
+
+/-- the implementation (as compiled) refuses a message whose bit length reaches 2^96 although the 128-bit counter of
+    FIPS 180-4 has not overflowed: the counter test of SHA384_512AddLength is `true` at 2^96 -/
+theorem sha512_refuses_at_2_96 : ShaStream.corrupt128w (2 ^ 96) = true ∧ ShaStream.corrupt128w (2 ^ 96 - 8) = false ∧
+    ShaStream.corrupt64 0 = true := by decide
+
+/-- the parametric model instantiated at SHA-256 agrees with the dedicated SHA-256 model of round 1 -/
+theorem sha256_streaming_generic_conforms (chunks : List Bytes) (hlen : 8 * chunks.flatten.length < 2 ^ 64) :
+    ShaStream.run ShaStream.sha256P chunks = some (Spec.Sha256.sha256 chunks.flatten) :=
+  Relic.Lemmas.ShaStream.sha256_streaming' chunks hlen
+
+/-- BLAKE2s, incremental API of blake2s-ref.c (blake2s_init / blake2s_init_key, one blake2s_update per chunk with the
+    buffer-fill logic and the t[0]/t[1] counter with carry, blake2s_final with last-block flag and zero padding) =
+    RFC 7693 (keyed when the key is non-empty) for every chunking, every digest length 1..32, every key length 0..32 -/
+theorem blake2s_streaming_conforms (nn : Nat) (key : Bytes) (chunks : List Bytes) (hn1 : 1 ≤ nn) (hn : nn ≤ 32)
+    (hk : key.length ≤ 32) (hlen : 64 + chunks.flatten.length < 2 ^ 64) :
+    Relic.Model.Blake2s.run nn key chunks = some (Relic.Spec.Blake2s.blake2sK nn key chunks.flatten) :=
+  Relic.Lemmas.Blake2s.run_eq nn key chunks hn1 hn hk hlen
+
+/-- the one-shot blake2s() = RFC 7693 -/
+theorem blake2s_oneshot_conforms (nn : Nat) (key msg : Bytes) (hn1 : 1 ≤ nn) (hn : nn ≤ 32)
+    (hk : key.length ≤ 32) (hlen : 64 + msg.length < 2 ^ 64) :
+    Relic.Model.Blake2s.blake2s nn msg key = some (Relic.Spec.Blake2s.blake2sK nn key msg) :=
+  Relic.Lemmas.Blake2s.oneshot_eq nn key msg hn1 hn hk hlen
+
+/-- md_map_b2s160 / md_map_b2s256 (blake2s() without key) = the unkeyed RFC 7693 function -/
+theorem md_map_b2s_conforms (nn : Nat) (msg : Bytes) (hn1 : 1 ≤ nn) (hn : nn ≤ 32) (hlen : 64 + msg.length < 2 ^ 64) :
+    Relic.Model.Blake2s.blake2s nn msg [] = some (Relic.Spec.Blake2s.blake2s nn msg) := by
+  rw [Relic.Lemmas.Blake2s.unkeyed_eq]
+  exact Relic.Lemmas.Blake2s.oneshot_eq nn [] msg hn1 hn (by simp) hlen
+
+/-- digest length 0 or above 32, or a key above 32 bytes: rejected -/
+theorem blake2s_rejects_bad_parameters (nn : Nat) (key msg : Bytes) (h : nn = 0 ∨ nn > 32 ∨ key.length > 32) :
+    Relic.Model.Blake2s.blake2s nn msg key = none :=
+  Relic.Lemmas.Blake2s.oneshot_rejects nn key msg h
 
 /-- HMAC, all key lengths -/
 theorem hmac_conforms (H : Hash) (hout : ∀ b, (H.h b).length = H.outLen) (hle : H.outLen ≤ H.blockLen)
@@ -39,6 +111,34 @@ theorem xmd_sha256_conforms (n : Nat) (inp dst : Bytes) (hlen : 8 * (inp.length 
   intro cs hcs
   have hcs' : cs.flatten.length ≤ 64 + inp.length + 32 + 259 := hcs
   exact sha256_streaming cs (by omega)
+
+/-- expand_message_xmd through the streaming SHA-224 / SHA-384 / SHA-512 implementations -/
+theorem xmd_sha224_conforms (n : Nat) (inp dst : Bytes) (hlen : 8 * (inp.length + 1000) < 2 ^ 64) :
+    Md.mdXmd Md.sha224Stream n inp dst
+      = Mac.expandMessageXmd { h := Spec.Sha256.sha224, outLen := 28, blockLen := 64 } inp dst n := by
+  apply mdXmd_eq Md.sha224Stream { h := Spec.Sha256.sha224, outLen := 28, blockLen := 64 } n inp dst
+    _ rfl rfl Relic.Lemmas.ShaStream.sha224_length (by decide) (by decide)
+  intro cs hcs
+  have hcs' : cs.flatten.length ≤ 64 + inp.length + 28 + 259 := hcs
+  exact Relic.Lemmas.ShaStream.sha224_streaming cs (by omega)
+
+theorem xmd_sha384_conforms (n : Nat) (inp dst : Bytes) (hlen : 8 * (inp.length + 1000) < 2 ^ 96) :
+    Md.mdXmd Md.sha384Stream n inp dst
+      = Mac.expandMessageXmd { h := Spec.Sha512.sha384, outLen := 48, blockLen := 128 } inp dst n := by
+  apply mdXmd_eq Md.sha384Stream { h := Spec.Sha512.sha384, outLen := 48, blockLen := 128 } n inp dst
+    _ rfl rfl Relic.Lemmas.ShaStream.sha384_length (by decide) (by decide)
+  intro cs hcs
+  have hcs' : cs.flatten.length ≤ 128 + inp.length + 48 + 259 := hcs
+  exact Relic.Lemmas.ShaStream.sha384_streaming cs (by omega)
+
+theorem xmd_sha512_conforms (n : Nat) (inp dst : Bytes) (hlen : 8 * (inp.length + 1000) < 2 ^ 96) :
+    Md.mdXmd Md.sha512Stream n inp dst
+      = Mac.expandMessageXmd { h := Spec.Sha512.sha512, outLen := 64, blockLen := 128 } inp dst n := by
+  apply mdXmd_eq Md.sha512Stream { h := Spec.Sha512.sha512, outLen := 64, blockLen := 128 } n inp dst
+    _ rfl rfl Relic.Lemmas.ShaStream.sha512_length (by decide) (by decide)
+  intro cs hcs
+  have hcs' : cs.flatten.length ≤ 128 + inp.length + 64 + 259 := hcs
+  exact Relic.Lemmas.ShaStream.sha512_streaming cs (by omega)
 
 /-- AES-CBC with PKCS#7: the model of bc_aes_cbc_enc is CBC ∘ PKCS#7, and decryption inverts encryption
     whenever the block decryption inverts the block encryption (hypothesis `hED`) -/
@@ -93,8 +193,267 @@ theorem aes_cbc_rejects_bad_padding (mkD : Bytes → Bytes → Bytes) (key iv c 
   rename_i hcond
   exact ⟨by omega, by omega, pkcs7Unpad_sound _ _ hdec⟩
 
+-- `Bc.aesE key` / `Bc.aesD key`: FIPS 197 Cipher / InvCipher under the FIPS 197 key expansion — the block functions the
+-- driver plugs into the model of bc_aes_cbc_enc / bc_aes_cbc_dec
+open Relic.Model.Bc (aesE aesD)
+
+def validKey (key : Bytes) : Prop := key.length = 16 ∨ key.length = 24 ∨ key.length = 32
+
+/-- FIPS 197: InvCipher inverts Cipher for every key size, every key and every block (S-box bijection checked over
+    all 256 entries by the kernel, InvShiftRows∘ShiftRows, InvMixColumns∘MixColumns through GF(2^8) linearity,
+    AddRoundKey involution, for an arbitrary list of round keys — so in particular for the FIPS 197 key schedule) -/
+theorem aes_invCipher_cipher (key b : Bytes) (hk : validKey key) (hb : b.length = 16) :
+    Aes.invCipher (Aes.keyExpansion key) (Aes.cipher (Aes.keyExpansion key) b) = b :=
+  Relic.Lemmas.Aes.invCipher_cipher key b hk hb
+
+/-- bc_aes_cbc_enc (model) = SP 800-38A CBC ∘ PKCS#7 with the FIPS 197 cipher, for every plaintext length incl. 0
+    and exact multiples of the block size, whenever the key size is valid and the output buffer is large enough -/
+theorem aes_cbc_enc_conforms (key iv m : Bytes) (cap : Nat) (hk : validKey key) (hiv : iv.length = 16)
+    (hcap : m.length + (16 - m.length % 16) ≤ cap) :
+    Bc.bcAesCbcEnc aesE cap m key iv = some (Aes.aesCbcPkcs7Enc key iv m) := by
+  unfold Bc.bcAesCbcEnc
+  rw [if_neg (by omega), if_neg (by unfold validKey at hk; omega)]
+  rw [padEncrypt_eq (aesE key) (fun b hb => Relic.Lemmas.Aes.cipher_length key b hk hb) iv hiv m]
+  rfl
+
+/-- bc_aes_cbc_dec (model) = PKCS#7-unpad ∘ CBC-decrypt of the specification, for every input -/
+theorem aes_cbc_dec_conforms (key iv c : Bytes) (cap : Nat) (hk : validKey key) (hiv : iv.length = 16)
+    (hcap : c.length ≤ cap) :
+    Bc.bcAesCbcDec aesD cap c key iv = Aes.aesCbcPkcs7Dec key iv c := by
+  unfold Bc.bcAesCbcDec
+  rw [if_neg (by omega), if_neg (by unfold validKey at hk; omega)]
+  rw [padDecrypt_eq (aesD key) (fun b hb => Relic.Lemmas.Aes.invCipher_length key b hk hb) iv hiv c]
+  rfl
+
+/-- AES-CBC with PKCS#7, concrete: whatever bc_aes_cbc_enc returns decrypts to the plaintext — no hypothesis on the
+    block cipher any more (`aes_cbc_roundtrip` instantiated with `aes_invCipher_cipher`) -/
+theorem aes_cbc_roundtrip_concrete (key iv m : Bytes) (cap : Nat) (hiv : iv.length = 16) (c : Bytes)
+    (henc : Bc.bcAesCbcEnc aesE cap m key iv = some c) :
+    Bc.bcAesCbcDec aesD c.length c key iv = some m := by
+  by_cases hk : validKey key
+  · exact aes_cbc_roundtrip aesE aesD key iv m cap
+      (fun b hb => Relic.Lemmas.Aes.invCipher_cipher key b hk hb)
+      (fun b hb => Relic.Lemmas.Aes.cipher_length key b hk hb)
+      (fun b hb => Relic.Lemmas.Aes.invCipher_length key b hk hb) hiv c henc
+  · exfalso
+    unfold Bc.bcAesCbcEnc at henc
+    unfold validKey at hk
+    split at henc
+    · simp at henc
+    · rw [if_pos (by omega)] at henc; simp at henc
+
+/-- the specification level: for every message (every length incl. empty and multiples of 16), every valid key and
+    every 16-byte IV, decryption of the encryption is the message -/
+theorem aes_cbc_pkcs7_roundtrip (key iv m : Bytes) (hk : validKey key) (hiv : iv.length = 16) :
+    Aes.aesCbcPkcs7Dec key iv (Aes.aesCbcPkcs7Enc key iv m) = some m := by
+  have henc := aes_cbc_enc_conforms key iv m (m.length + (16 - m.length % 16)) hk hiv (Nat.le_refl _)
+  have hrt := aes_cbc_roundtrip_concrete key iv m _ hiv _ henc
+  rwa [aes_cbc_dec_conforms key iv _ _ hk hiv (Nat.le_refl _)] at hrt
+
+/-- the ciphertext is a positive whole number of blocks, exactly the padded length -/
+theorem aes_cbc_enc_length (key iv m : Bytes) (hk : validKey key) (hiv : iv.length = 16) :
+    (Aes.aesCbcPkcs7Enc key iv m).length = m.length + (16 - m.length % 16) := by
+  have hE : ∀ b : Bytes, b.length = 16 → (Aes.cipher (Aes.keyExpansion key) b).length = 16 :=
+    fun b hb => Relic.Lemmas.Aes.cipher_length key b hk hb
+  obtain ⟨hP16, _⟩ := pkcs7Pad_length m
+  unfold Aes.aesCbcPkcs7Enc
+  simp only
+  obtain ⟨hBf, hB16⟩ := flatten_chunks16 ((Aes.pkcs7Pad m).length / 16 + 1) (Aes.pkcs7Pad m) (by omega) hP16
+  obtain ⟨hCSl, hCS16⟩ := cbcEnc_blocks (Aes.cipher (Aes.keyExpansion key)) hE iv hiv _ hB16
+  rw [flatten_length16 _ hCS16, hCSl, ← flatten_length16 _ hB16, hBf]
+  simp [Aes.pkcs7Pad]
+
+/-- concrete rejection: bc_aes_cbc_dec returns data only if the CBC decryption under the FIPS 197 inverse cipher ends
+    in a well-formed PKCS#7 padding (and the input is a positive multiple of 16 bytes) -/
+theorem aes_cbc_rejects_bad_padding_concrete (key iv c m : Bytes) (cap : Nat) (hk : validKey key) (hiv : iv.length = 16)
+    (hdec : Bc.bcAesCbcDec aesD cap c key iv = some m) :
+    c.length ≠ 0 ∧ c.length % 16 = 0 ∧
+    ∃ k : Nat, 1 ≤ k ∧ k ≤ 16 ∧
+      (Aes.cbcDec (aesD key) iv (Aes.chunks16 (c.length / 16 + 1) c)).flatten = m ++ List.replicate k (UInt8.ofNat k) :=
+  aes_cbc_rejects_bad_padding aesD key iv c m cap (fun b hb => Relic.Lemmas.Aes.invCipher_length key b hk hb) hiv hdec
+
+/-- non-vacuity: a 16-byte key is valid -/
+example : validKey (List.replicate 16 0) := Or.inl (by simp)
+
+/-- the ten lookup tables and the rcon table of src/bc/rijndael-alg-fst.c, as extracted from the C text on every run
+    (Gen/AesTables.lean), are for all 256 indices what FIPS 197 makes them: Te_k[x] = the k-th rotation of
+    (02·S[x], S[x], S[x], 03·S[x]), Te4[x] = S[x] in every byte, Td_k[x] = rotations of (0e·Si[x], 09·Si[x], 0d·Si[x], 0b·Si[x]),
+    Td4[x] = Si[x] in every byte, rcon[i] = x^i in the top byte (kernel evaluation over every entry) -/
+theorem aes_tables_conform :
+    (∀ i, i < 256 → Relic.Gen.AesTables.Te0.getD i 0 = (let x := UInt8.ofNat i; Relic.Lemmas.AesTables.pack (Aes.gmul 0x02 (Aes.sbox x)) (Aes.sbox x) (Aes.sbox x) (Aes.gmul 0x03 (Aes.sbox x)))) ∧
+    (∀ i, i < 256 → Relic.Gen.AesTables.Te1.getD i 0 = (let x := UInt8.ofNat i; Relic.Lemmas.AesTables.pack (Aes.gmul 0x03 (Aes.sbox x)) (Aes.gmul 0x02 (Aes.sbox x)) (Aes.sbox x) (Aes.sbox x))) ∧
+    (∀ i, i < 256 → Relic.Gen.AesTables.Te2.getD i 0 = (let x := UInt8.ofNat i; Relic.Lemmas.AesTables.pack (Aes.sbox x) (Aes.gmul 0x03 (Aes.sbox x)) (Aes.gmul 0x02 (Aes.sbox x)) (Aes.sbox x))) ∧
+    (∀ i, i < 256 → Relic.Gen.AesTables.Te3.getD i 0 = (let x := UInt8.ofNat i; Relic.Lemmas.AesTables.pack (Aes.sbox x) (Aes.sbox x) (Aes.gmul 0x03 (Aes.sbox x)) (Aes.gmul 0x02 (Aes.sbox x)))) ∧
+    (∀ i, i < 256 → Relic.Gen.AesTables.Te4.getD i 0 = (let x := UInt8.ofNat i; Relic.Lemmas.AesTables.pack (Aes.sbox x) (Aes.sbox x) (Aes.sbox x) (Aes.sbox x))) ∧
+    (∀ i, i < 256 → Relic.Gen.AesTables.Td0.getD i 0 = (let x := UInt8.ofNat i; Relic.Lemmas.AesTables.pack (Aes.gmul 0x0e (Aes.invSbox x)) (Aes.gmul 0x09 (Aes.invSbox x)) (Aes.gmul 0x0d (Aes.invSbox x)) (Aes.gmul 0x0b (Aes.invSbox x)))) ∧
+    (∀ i, i < 256 → Relic.Gen.AesTables.Td1.getD i 0 = (let x := UInt8.ofNat i; Relic.Lemmas.AesTables.pack (Aes.gmul 0x0b (Aes.invSbox x)) (Aes.gmul 0x0e (Aes.invSbox x)) (Aes.gmul 0x09 (Aes.invSbox x)) (Aes.gmul 0x0d (Aes.invSbox x)))) ∧
+    (∀ i, i < 256 → Relic.Gen.AesTables.Td2.getD i 0 = (let x := UInt8.ofNat i; Relic.Lemmas.AesTables.pack (Aes.gmul 0x0d (Aes.invSbox x)) (Aes.gmul 0x0b (Aes.invSbox x)) (Aes.gmul 0x0e (Aes.invSbox x)) (Aes.gmul 0x09 (Aes.invSbox x)))) ∧
+    (∀ i, i < 256 → Relic.Gen.AesTables.Td3.getD i 0 = (let x := UInt8.ofNat i; Relic.Lemmas.AesTables.pack (Aes.gmul 0x09 (Aes.invSbox x)) (Aes.gmul 0x0d (Aes.invSbox x)) (Aes.gmul 0x0b (Aes.invSbox x)) (Aes.gmul 0x0e (Aes.invSbox x)))) ∧
+    (∀ i, i < 256 → Relic.Gen.AesTables.Td4.getD i 0 = (let x := UInt8.ofNat i; Relic.Lemmas.AesTables.pack (Aes.invSbox x) (Aes.invSbox x) (Aes.invSbox x) (Aes.invSbox x))) ∧
+    (∀ i, i < 10 → Relic.Gen.AesTables.rcon.getD i 0 = (Aes.rcon (i + 1)).toUInt32 <<< (24 : UInt32)) :=
+  ⟨Relic.Lemmas.AesTables.Te0_spec, Relic.Lemmas.AesTables.Te1_spec, Relic.Lemmas.AesTables.Te2_spec,
+   Relic.Lemmas.AesTables.Te3_spec, Relic.Lemmas.AesTables.Te4_spec, Relic.Lemmas.AesTables.Td0_spec,
+   Relic.Lemmas.AesTables.Td1_spec, Relic.Lemmas.AesTables.Td2_spec, Relic.Lemmas.AesTables.Td3_spec,
+   Relic.Lemmas.AesTables.Td4_spec, Relic.Lemmas.AesTables.rcon_spec⟩
+
+/-- one round of the table code (both half rounds of the loop of rijndaelEncrypt: Te0[s0>>24] ^ Te1[(s1>>16)&0xff] ^ Te2[(s2>>8)&0xff] ^
+    Te3[s3&0xff] ^ rk[o], …) on the big-endian words of a 16-byte state and round key is
+    AddRoundKey(MixColumns(ShiftRows(SubBytes(state))), key) of FIPS 197, for every state and key -/
+theorem aes_table_round_conforms (x0 x1 x2 x3 x4 x5 x6 x7 x8 x9 x10 x11 x12 x13 x14 x15 k0 k1 k2 k3 k4 k5 k6 k7 k8 k9 k10 k11 k12 k13 k14 k15 : UInt8)
+    (rk : Array UInt32) (o : Nat)
+    (h0 : rk.getD o 0 = Relic.Lemmas.AesTables.X k0 k1 k2 k3) (h1 : rk.getD (o+1) 0 = Relic.Lemmas.AesTables.X k4 k5 k6 k7)
+    (h2 : rk.getD (o+2) 0 = Relic.Lemmas.AesTables.X k8 k9 k10 k11) (h3 : rk.getD (o+3) 0 = Relic.Lemmas.AesTables.X k12 k13 k14 k15) :
+    Rijndael.encHalf rk o (Relic.Lemmas.AesTables.X x0 x1 x2 x3, Relic.Lemmas.AesTables.X x4 x5 x6 x7,
+        Relic.Lemmas.AesTables.X x8 x9 x10 x11, Relic.Lemmas.AesTables.X x12 x13 x14 x15) =
+      (let r := Relic.Lemmas.AesTables.specRound [x0, x1, x2, x3, x4, x5, x6, x7, x8, x9, x10, x11, x12, x13, x14, x15]
+                  [k0, k1, k2, k3, k4, k5, k6, k7, k8, k9, k10, k11, k12, k13, k14, k15]
+       (Rijndael.getu32 r 0, Rijndael.getu32 r 4, Rijndael.getu32 r 8, Rijndael.getu32 r 12)) :=
+  Relic.Lemmas.AesTables.encHalf_spec x0 x1 x2 x3 x4 x5 x6 x7 x8 x9 x10 x11 x12 x13 x14 x15 k0 k1 k2 k3 k4 k5 k6 k7 k8 k9 k10 k11 k12 k13 k14 k15
+    rk o h0 h1 h2 h3
+
+/-- rijndaelEncrypt (the table code: GETU32 ^ rk, the `r = Nr >> 1` loop over Te0..Te3 with its early break, the last round through
+    Te4 and the byte masks, PUTU32) on a word array that holds the round keys `ks` big-endian computes the FIPS 197 Cipher with
+    these round keys — for every state, every round-key list, Nr = 10 / 12 / 14 -/
+theorem rijndael_encrypt_conforms (rk : Array UInt32) (ks : List Bytes) (nr : Nat) (hok : Relic.Lemmas.Rijndael.RkOK rk ks)
+    (hlen : ks.length = nr + 1) (hnr : nr = 10 ∨ nr = 12 ∨ nr = 14) (hk : ∀ k ∈ ks, k.length = 16) (pt : Bytes)
+    (hpt : pt.length = 16) : Rijndael.encrypt rk nr pt = Aes.cipher ks pt :=
+  Relic.Lemmas.Rijndael.encrypt_eq rk ks nr hok hlen hnr hk pt hpt
+
+/-- rijndaelDecrypt (Td0..Td3 loop, Td4 last round) on a word array that holds the decryption round keys `dk` in reverse order (as
+    rijndaelKeySetupDec leaves them) computes the FIPS 197 §5.3.5 equivalent inverse cipher -/
+theorem rijndael_decrypt_conforms (rk : Array UInt32) (dk : List Bytes) (nr : Nat)
+    (hok : Relic.Lemmas.Rijndael.RkOK rk dk.reverse) (hlen : dk.length = nr + 1) (hnr : nr = 10 ∨ nr = 12 ∨ nr = 14)
+    (hk : ∀ k ∈ dk, k.length = 16) (ct : Bytes) (hct : ct.length = 16) :
+    Rijndael.decrypt rk nr ct = Aes.eqInvCipher dk ct :=
+  Relic.Lemmas.Rijndael.Dec.decrypt_eq rk dk nr hok hlen hnr hk ct hct
+
+/-- FIPS 197 §5.3.5: the equivalent inverse cipher with the InvMixColumns-transformed key schedule is InvCipher, and inverts Cipher -/
+theorem aes_eqInvCipher_conforms (key b : Bytes) (hk : validKey key) (hb : b.length = 16) :
+    Aes.eqInvCipher (Aes.eqInvKeys (Aes.keyExpansion key)) b = Aes.invCipher (Aes.keyExpansion key) b ∧
+    Aes.eqInvCipher (Aes.eqInvKeys (Aes.keyExpansion key)) (Aes.cipher (Aes.keyExpansion key) b) = b :=
+  ⟨Relic.Lemmas.AesEqInv.eqInvCipher_keyExpansion key b hk hb, Relic.Lemmas.AesEqInv.eqInvCipher_cipher key b hk hb⟩
+
+/-- rijndaelKeySetupEnc (the three unrolled key schedules with their moving pointer, SubWord / RotWord through Te4 and byte masks, the
+    rcon table) writes the FIPS 197 expanded key, big-endian, for every key of 16 / 24 / 32 bytes -/
+theorem rijndael_keySetupEnc_conforms (key : Bytes) (hk : validKey key) :
+    ∃ rk, Rijndael.keySetupEnc key = some (rk, key.length / 4 + 6) ∧
+      Relic.Lemmas.Rijndael.RkOK rk (Aes.keyExpansion key) ∧ (Aes.keyExpansion key).length = key.length / 4 + 6 + 1 :=
+  Relic.Lemmas.Rijndael.Key.keySetupEnc_ok key hk
+
+/-- AES block encryption of the library (rijndaelKeySetupEnc + rijndaelEncrypt, table-driven) = FIPS 197 Cipher under the
+    FIPS 197 key expansion: every key size, every key, every block -/
+theorem rijndael_aesE_conforms (key blk : Bytes) (hk : validKey key) (hb : blk.length = 16) :
+    Rijndael.aesE key blk = Aes.cipher (Aes.keyExpansion key) blk := by
+  obtain ⟨rk, hks, hok, hlen⟩ := Relic.Lemmas.Rijndael.Key.keySetupEnc_ok key hk
+  unfold Rijndael.aesE
+  rw [hks]
+  exact Relic.Lemmas.Rijndael.encrypt_eq rk (Aes.keyExpansion key) (key.length / 4 + 6) hok hlen
+    (by unfold validKey at hk; omega) (Relic.Lemmas.Aes.keyExpansion_length key hk).2 blk hb
+
+/-- bc_aes_cbc_enc with the table-driven block cipher (the model the driver executes) = SP 800-38A CBC ∘ PKCS#7 over the FIPS 197
+    cipher, for every plaintext length incl. 0 and multiples of the block size -/
+theorem aes_cbc_enc_tables_conforms (key iv m : Bytes) (cap : Nat) (hk : validKey key) (hiv : iv.length = 16)
+    (hcap : m.length + (16 - m.length % 16) ≤ cap) :
+    Bc.bcAesCbcEnc Rijndael.aesE cap m key iv = some (Aes.aesCbcPkcs7Enc key iv m) := by
+  have hEq : ∀ b : Bytes, b.length = 16 → Rijndael.aesE key b = Aes.cipher (Aes.keyExpansion key) b :=
+    fun b hb => rijndael_aesE_conforms key b hk hb
+  have hE : ∀ b : Bytes, b.length = 16 → (Rijndael.aesE key b).length = 16 :=
+    fun b hb => by rw [hEq b hb]; exact Relic.Lemmas.Aes.cipher_length key b hk hb
+  unfold Bc.bcAesCbcEnc
+  rw [if_neg (by omega), if_neg (by unfold validKey at hk; omega)]
+  rw [padEncrypt_eq (Rijndael.aesE key) hE iv hiv m]
+  obtain ⟨hP16, _⟩ := pkcs7Pad_length m
+  obtain ⟨_, hB16⟩ := flatten_chunks16 ((Aes.pkcs7Pad m).length / 16 + 1) (Aes.pkcs7Pad m) (by omega) hP16
+  rw [Relic.Lemmas.AesCbc.cbcEnc_congr _ _ hEq hE iv hiv _ hB16]
+  rfl
+
+/-- rijndaelKeySetupDec (key expansion, reversal of the round keys, InvMixColumns of the middle ones through Td0[Te4[..] & 0xff] …)
+    leaves the FIPS 197 §5.3.5 decryption keys, in reverse order, for every key -/
+theorem rijndael_keySetupDec_conforms (key : Bytes) (hk : validKey key) :
+    ∃ rk, Rijndael.keySetupDec key = some (rk, key.length / 4 + 6) ∧
+      Relic.Lemmas.Rijndael.RkOK rk (Aes.eqInvKeys (Aes.keyExpansion key)).reverse :=
+  Relic.Lemmas.Rijndael.Key.keySetupDec_ok key hk
+
+/-- AES block decryption of the library (rijndaelKeySetupDec + rijndaelDecrypt, table-driven) = FIPS 197 InvCipher under the
+    FIPS 197 key expansion: every key size, every key, every block -/
+theorem rijndael_aesD_conforms (key blk : Bytes) (hk : validKey key) (hb : blk.length = 16) :
+    Rijndael.aesD key blk = Aes.invCipher (Aes.keyExpansion key) blk := by
+  obtain ⟨rk, hks, hok⟩ := Relic.Lemmas.Rijndael.Key.keySetupDec_ok key hk
+  obtain ⟨_, _, _, hlen⟩ := Relic.Lemmas.Rijndael.Key.keySetupEnc_ok key hk
+  obtain ⟨hne, h16⟩ := Relic.Lemmas.Aes.keyExpansion_length key hk
+  unfold Rijndael.aesD
+  rw [hks]
+  have := Relic.Lemmas.Rijndael.Dec.decrypt_eq rk (Aes.eqInvKeys (Aes.keyExpansion key)) (key.length / 4 + 6) hok
+    (by rw [Relic.Lemmas.AesEqInv.eqInvKeys_length _ hne, hlen]) (by unfold validKey at hk; omega)
+    (Relic.Lemmas.AesEqInv.eqInvKeys_length16 _ hne h16) blk hb
+  simp only at this ⊢
+  rw [this]
+  exact Relic.Lemmas.AesEqInv.eqInvCipher_keyExpansion key blk hk hb
+
+/-- the table-driven block decryption inverts the table-driven block encryption -/
+theorem rijndael_aesD_aesE (key blk : Bytes) (hk : validKey key) (hb : blk.length = 16) :
+    Rijndael.aesD key (Rijndael.aesE key blk) = blk := by
+  rw [rijndael_aesE_conforms key blk hk hb,
+    rijndael_aesD_conforms key _ hk (Relic.Lemmas.Aes.cipher_length key blk hk hb)]
+  exact Relic.Lemmas.Aes.invCipher_cipher key blk hk hb
+
+/-- bc_aes_cbc_dec with the table-driven block cipher (the model the driver executes) = PKCS#7-unpad ∘ CBC-decrypt of the
+    specification, for every input -/
+theorem aes_cbc_dec_tables_conforms (key iv c : Bytes) (cap : Nat) (hk : validKey key) (hiv : iv.length = 16)
+    (hcap : c.length ≤ cap) :
+    Bc.bcAesCbcDec Rijndael.aesD cap c key iv = Aes.aesCbcPkcs7Dec key iv c := by
+  have hEq : ∀ b : Bytes, b.length = 16 → Rijndael.aesD key b = Aes.invCipher (Aes.keyExpansion key) b :=
+    fun b hb => rijndael_aesD_conforms key b hk hb
+  have hD : ∀ b : Bytes, b.length = 16 → (Rijndael.aesD key b).length = 16 :=
+    fun b hb => by rw [hEq b hb]; exact Relic.Lemmas.Aes.invCipher_length key b hk hb
+  unfold Bc.bcAesCbcDec
+  rw [if_neg (by omega), if_neg (by unfold validKey at hk; omega)]
+  rw [padDecrypt_eq (Rijndael.aesD key) hD iv hiv c]
+  unfold Aes.aesCbcPkcs7Dec
+  by_cases h0 : c.length = 0 ∨ c.length % 16 ≠ 0
+  · rw [if_pos h0, if_pos h0]
+  · rw [if_neg h0, if_neg h0]
+    obtain ⟨_, hB16⟩ := flatten_chunks16 (c.length / 16 + 1) c (by omega) (by omega)
+    rw [Relic.Lemmas.AesCbc.cbcDec_congr _ _ hEq iv _ hB16]
+
+/-- AES-CBC with PKCS#7 through the table-driven code of the library, end to end: whatever bc_aes_cbc_enc returns,
+    bc_aes_cbc_dec decrypts to the plaintext; no hypothesis -/
+theorem aes_cbc_roundtrip_tables (key iv m : Bytes) (cap : Nat) (hiv : iv.length = 16) (c : Bytes)
+    (henc : Bc.bcAesCbcEnc Rijndael.aesE cap m key iv = some c) :
+    Bc.bcAesCbcDec Rijndael.aesD c.length c key iv = some m := by
+  by_cases hk : validKey key
+  · have hE : ∀ b : Bytes, b.length = 16 → (Rijndael.aesE key b).length = 16 :=
+      fun b hb => by rw [rijndael_aesE_conforms key b hk hb]; exact Relic.Lemmas.Aes.cipher_length key b hk hb
+    have hD : ∀ b : Bytes, b.length = 16 → (Rijndael.aesD key b).length = 16 :=
+      fun b hb => by rw [rijndael_aesD_conforms key b hk hb]; exact Relic.Lemmas.Aes.invCipher_length key b hk hb
+    exact aes_cbc_roundtrip Rijndael.aesE Rijndael.aesD key iv m cap
+      (fun b hb => rijndael_aesD_aesE key b hk hb) hE hD hiv c henc
+  · exfalso
+    unfold Bc.bcAesCbcEnc at henc
+    unfold validKey at hk
+    split at henc
+    · simp at henc
+    · rw [if_pos (by omega)] at henc; simp at henc
+
+/-- the constant tables of the hash implementations, as extracted from the C text on every run (Gen/MdConsts.lean: K[64] and
+    the initial values of sha224-256.c, K[80] and the initial values of sha384-512.c, blake2s_IV and blake2s_sigma of
+    blake2s-ref.c), are the constants of the FIPS 180-4 / RFC 7693 definitions the theorems above speak about -/
+theorem md_constants_conform :
+    Relic.Gen.MdConsts.sha256K = Spec.Sha256.K ∧ Relic.Gen.MdConsts.sha224H0 = Spec.Sha256.H0_224.toArray ∧
+    Relic.Gen.MdConsts.sha256H0 = Spec.Sha256.H0.toArray ∧ Relic.Gen.MdConsts.sha512K = Spec.Sha512.K ∧
+    Relic.Gen.MdConsts.sha384H0 = Spec.Sha512.H0_384.toArray ∧ Relic.Gen.MdConsts.sha512H0 = Spec.Sha512.H0_512.toArray ∧
+    Relic.Gen.MdConsts.blake2sIV = Relic.Spec.Blake2s.IV ∧ Relic.Gen.MdConsts.blake2sSigma = Relic.Spec.Blake2s.sigma ∧
+    -- the variant of sha384-512.c that is compiled keeps the 64-bit constants as (high, low) pairs of 32-bit words
+    Relic.Gen.MdConsts.join32 Relic.Gen.MdConsts.sha512K32 = Spec.Sha512.K.toList ∧
+    Relic.Gen.MdConsts.join32 Relic.Gen.MdConsts.sha384H032 = Spec.Sha512.H0_384 ∧
+    Relic.Gen.MdConsts.join32 Relic.Gen.MdConsts.sha512H032 = Spec.Sha512.H0_512 :=
+  ⟨Relic.Gen.MdConsts.sha256K_eq, Relic.Gen.MdConsts.sha224H0_eq, Relic.Gen.MdConsts.sha256H0_eq, Relic.Gen.MdConsts.sha512K_eq,
+   Relic.Gen.MdConsts.sha384H0_eq, Relic.Gen.MdConsts.sha512H0_eq, Relic.Gen.MdConsts.blake2sIV_eq, Relic.Gen.MdConsts.blake2sSigma_eq,
+   Relic.Gen.MdConsts.sha512K32_eq, Relic.Gen.MdConsts.sha384H032_eq, Relic.Gen.MdConsts.sha512H032_eq⟩
+
 /-- non-vacuity: PKCS#7 of a 3-byte message; the padding split of SHA-256 at 55/56 bytes -/
 example : Aes.pkcs7Pad [1, 2, 3] = [1, 2, 3] ++ List.replicate 13 13 := by decide
 example : (Spec.Sha256.pad 55).length = 9 ∧ (Spec.Sha256.pad 56).length = 72 := by decide
+example : (Spec.MD.pad 128 16 111).length = 17 ∧ (Spec.MD.pad 128 16 112).length = 144 := by decide +kernel
 
 end Relic.Props.C14
